@@ -60,6 +60,18 @@ def conv(x, exact):
     return Fraction(x) if exact else x
 
 
+
+def mk_node(p, w, data=None, k=0):
+    """a Node with axis position p and extent w.  Every other one is built the way `Timeline.get_nodes` builds its nodes: constructed with the
+    bare item width, its `width` assigned afterwards (there: after the label padding has been added) — `width` is a plain attribute that callers
+    may set at any time before a layout, and the layout must use what it holds THEN."""
+    if k % 2 == 0:
+        return Node(p, w, data=data) if data is not None else Node(p, w)
+    n = Node(p, w / 2 + 1, data=data) if data is not None else Node(p, w / 2 + 1)
+    n.width = w
+    return n
+
+
 def layer_line(mode, before, after, targets, options, xs):
     """driver line for one call of removeOverlap, as observed"""
     opts = dict(RO_DEFAULT)
@@ -80,7 +92,7 @@ def run_layer(items, opts, mode):
     _state["layers"] = []
     nodes = []
     for t, w, s in items:
-        n = Node(conv(t, exact), conv(w, exact))
+        n = mk_node(conv(t, exact), conv(w, exact), k=len(nodes))
         if s:
             n.child = Node(0, 1)
         nodes.append(n)
@@ -150,7 +162,7 @@ def run_force(labels, opts, mode, engine=None, nodes=None, want_layer_lines=True
         src = eff_force_opts(opts) if exact else opts   # exact mode: every number explicit, as a Fraction
         o = {k: (conv(v, exact) if k != "algorithm" else v) for k, v in src.items()}
         if nodes is None:
-            nodes = [Node(conv(p, exact), conv(w, exact), data={"i": i}) for i, (p, w) in enumerate(labels)]
+            nodes = [mk_node(conv(p, exact), conv(w, exact), data={"i": i}, k=i) for i, (p, w) in enumerate(labels)]
         if engine is None:
             engine = force_mod.Force(o)
             engine.nodes(nodes)
@@ -184,7 +196,7 @@ def run_dist(labels, dopts, mode):
     """Distributor.distribute called directly.  dopts: algorithm, layerWidth, density, nodeSpacing, stubWidth (all given)."""
     exact = mode == "exact"
     o = {k: (conv(v, exact) if k != "algorithm" else v) for k, v in dopts.items()}
-    nodes = [Node(conv(p, exact), conv(w, exact), data={"i": i}) for i, (p, w) in enumerate(labels)]
+    nodes = [mk_node(conv(p, exact), conv(w, exact), data={"i": i}, k=i) for i, (p, w) in enumerate(labels)]
     d = dist_mod.Distributor(o)
     layers = d.distribute(nodes)
     for k, layer in enumerate(layers):     # the engine, not the distributor, numbers the layers
@@ -227,7 +239,7 @@ def run_history(ops, mode, want_layer_lines=False):
             if nodes is not None and op[-1] == "keep-nodes":      # stale nodes into a fresh engine
                 engine.nodes(nodes)
         elif op[0] == "nodes":
-            nodes = [Node(conv(p, exact), conv(w, exact), data={"i": i}) for i, (p, w) in enumerate(op[1])]
+            nodes = [mk_node(conv(p, exact), conv(w, exact), data={"i": i}, k=i) for i, (p, w) in enumerate(op[1])]
             engine.nodes(nodes)
         elif op[0] == "renodes":
             engine.nodes(nodes)         # the same Node objects again (they may carry stubs / layer numbers of the last layout)
@@ -266,7 +278,7 @@ def run_ehist(ops):
                 if nodes is not None and op[-1] == "keep-nodes":
                     engine.nodes(nodes); enc.append("S")
             elif op[0] == "nodes":
-                nodes = [Node(Fraction(p), Fraction(w), data={"i": i}) for i, (p, w) in enumerate(op[1])]
+                nodes = [mk_node(Fraction(p), Fraction(w), data={"i": i}, k=i) for i, (p, w) in enumerate(op[1])]
                 engine.nodes(nodes)
                 enc.append("N~" + ",".join("%s:%s" % (fr(Fraction(p)), fr(Fraction(w))) for p, w in op[1]))
             elif op[0] == "renodes":
@@ -312,6 +324,8 @@ def run_mhist(ops):
     _state["exact"] = True
     _state["layers"] = None
     enc, obs, differ = [], [], []
+    trace = _state.setdefault("mhist_trace", [])
+    del trace[:]
     engines, accs, refs, lists = [], [], [], []
     cur = None
     cv = lambda d: {k: (conv(v, True) if k != "algorithm" else v) for k, v in d.items()}
@@ -327,7 +341,7 @@ def run_mhist(ops):
                 accs[cur].update(op[1]); engines[cur].set_options(cv(op[1]))
                 enc.append("O~" + _eopts(accs[cur]))
             elif op[0] == "nodes":
-                x = [Node(Fraction(p), Fraction(w), data={"i": i}) for i, (p, w) in enumerate(op[1])]
+                x = [mk_node(Fraction(p), Fraction(w), data={"i": i}, k=i) for i, (p, w) in enumerate(op[1])]
                 lists.append(x); engines[cur].nodes(x); refs[cur] = len(lists) - 1
                 enc.append("N~" + ",".join("%s:%s" % (fr(Fraction(p)), fr(Fraction(w))) for p, w in op[1]))
             elif op[0] == "use":
@@ -339,6 +353,8 @@ def run_mhist(ops):
                 enc.append("C")
                 got = _obs_rows(engines[cur])
                 obs.append("%d>%s" % (cur, got))
+                trace.append({"engine": cur, "opts": {k: (v if k == "algorithm" or v is None else str(Fraction(v))) for k, v in accs[cur].items()},
+                              "nodes": [[str(p), str(w), i] for p, w, i in now], "got": got})
                 fresh = force_mod.Force(cv(accs[cur]))
                 if now:
                     fresh.nodes([Node(p, w, data={"i": i}) for p, w, i in now])
